@@ -26,6 +26,7 @@ Lemma code_frame_sort_values_refines : forall axis f sel single keyres asc,
   let c := fsv_cfs axis (sf_obs f) sel single keyres in
   let n := fsv_n axis (sf_obs f) in
   fsv_dom n c = true ->
+  fsv_zero_ok axis (sf_obs f) keyres = true ->
   fsv_hier_ok axis f (S_order (cfs_keys c) n asc) = true ->
   M_frame_sort_values code_params axis f sel single keyres asc =
   Ok (S_frame_sort axis (sf_obs f) (cfs_keys c) asc).
@@ -63,6 +64,18 @@ Lemma code_index_sort_refines : forall depth labels asc,
   hier_ok depth labels (S_order keys (length labels) asc) = true ->
   M_index_sort code_params depth labels None asc = Ok (S_index_sort labels keys asc).
 Proof. rewrite code_params_good. exact index_sort_refines. Qed.
+
+Lemma code_frame_sort_values_rejects_wrong_length : forall axis f sel single c asc, (axis = 1 \/ axis = 0) ->
+  cfs_len c <> fsv_n axis (sf_obs f) ->
+  M_frame_sort_values code_params axis f sel single (Some c) asc = Err "RuntimeError".
+Proof. rewrite code_params_good. exact frame_sort_values_rejects_wrong_length. Qed.
+
+Lemma code_sort_index_family_rejects_wrong_length : forall c asc,
+  (forall f, cfs_len c <> length (of_index (sf_obs f)) -> M_frame_sort_index code_params f (Some c) asc = Err "RuntimeError") /\
+  (forall f, cfs_len c <> length (of_columns (sf_obs f)) -> M_frame_sort_columns code_params f (Some c) asc = Err "RuntimeError") /\
+  (forall s, cfs_len c <> length (os_index (ss_obs s)) -> M_series_sort_index code_params s (Some c) asc = Err "RuntimeError") /\
+  (forall depth labels, cfs_len c <> length labels -> M_index_sort code_params depth labels (Some c) asc = Err "RuntimeError").
+Proof. rewrite code_params_good. exact sort_index_family_rejects_wrong_length. Qed.
 
 Lemma code_cache_params_good : code_cache_params = good_cache_params.
 Proof. reflexivity. Qed.
